@@ -241,6 +241,28 @@ def unit_init_must_write(R, F, tag):
     R.check(nu >= 5, 'unit-init-cones' + tag, 'only %d cone types with unit_initialization analysed' % nu)
 
 
+def timer_reset_complete(R, F, E, tag):
+    """info.reset() resets the "solve" timer at the start of every solve; solve_time feeds the MaxTime test.  A reset that
+    keeps part of the timer (accumulated elapsed time, a running start instant, sub-timers) makes a repeated solve on
+    the same object see the time of all earlier solves."""
+    fs = [g for g in F.find(name='reset') if 'InnerTimer' in (g.impl_self or '') + (g.impl_adt or '')]
+    if len(fs) != 1:
+        R.bad('timer-reset-anchor' + tag, 'InnerTimer::reset matched %d functions' % len(fs))
+        return
+    f = fs[0]
+    whole, part = whole_writes(E, f)
+    got = {ch[0][1] for ch in whole if ch}
+    fields = [fl['n'] for v in F.adt('InnerTimer')['variants'] for fl in v['fields']]
+    R.check(len(fields) >= 2, 'timer-fields' + tag, 'InnerTimer has %d fields (anchor drift)' % len(fields), f.loc())
+    for fl in fields:
+        R.check(fl in got, 'timer-reset|%s%s' % (fl, tag),
+                'InnerTimer::reset does not re-initialise `%s`: the solve timer carries that state into the next solve on the same solver '
+                '(solve_time, and with it the MaxTime verdict, then depends on earlier solves)' % fl, f.loc())
+    rs = F.one(name='reset', adt='DefaultInfo', trait='Info') if F.find(name='reset', adt='DefaultInfo', trait='Info') else None
+    if rs is not None:
+        R.check(any(c.callee.name == 'reset_timer' for c in rs.calls), 'info-reset-resets-timer' + tag, 'DefaultInfo::reset does not reset the solve timer', rs.loc())
+
+
 def fresh_start(rep, F, E, G, tag):
     R = rep.rule('C05.R6', 'every solve starts from scratch: reset + default_start before the loop, all iterate '
                            'components written, identity scaling rewrites every scaling field the KKT update reads')
@@ -308,6 +330,7 @@ def fresh_start(rep, F, E, G, tag):
                         sid.loc())
         R.check(ncones >= 3, 'identity-cones' + tag, 'only %d symmetric cone types analysed' % ncones)
         unit_init_must_write(R, F, tag)
+        timer_reset_complete(R, F, E, tag)
         # prev_* readers
         for fld in ('prev_res_primal', 'prev_res_dual', 'prev_gap_abs', 'prev_gap_rel', 'prev_cost_primal', 'prev_cost_dual'):
             for f in F.fns:
